@@ -314,6 +314,14 @@ class CoopLockProvider:
             if d:
                 os.makedirs(d, exist_ok=True)
             return bool(lock._try_acquire_once())
+        if hasattr(self.real, "_try_acquire"):
+            # S3 lock providers: ONE acquisition attempt (create-if-absent, else takeover of an expired lease);
+            # the blocking loop / timeout of acquire() is C19's subject.  No heartbeat thread: renewals are not
+            # part of the commit protocol, a lapse is a clock jump in the schedule.
+            ok = bool(self.real._try_acquire())
+            if ok:
+                self.real.is_locked = True
+            return ok
         return bool(self.real.acquire())
 
     def release(self) -> None:
